@@ -264,10 +264,40 @@ pub fn scenario_strategy(p: &GenParams) -> BoxedStrategy<PairScenario> {
         tail,
         // an old connection: before the generated history both endpoints idle until shortly before their millisecond
         // clocks (counted from the creation of the connection) reach a power of two - 2^32 ms are 49.7 days
-        proptest::option::weighted(0.08, (prop_oneof![5 => Just(32u8), 1 => Just(31u8), 1 => Just(24u8), 1 => Just(16u8), 2 => Just(33u8)], prop_oneof![2 => 0u32..300, 3 => 300u32..3000, 2 => 3000u32..12_000])),
+        proptest::option::weighted(0.08, (prop_oneof![5 => Just(32u8), 1 => Just(31u8), 1 => Just(24u8), 1 => Just(16u8), 2 => Just(33u8)], prop_oneof![2 => 0u32..300, 3 => 300u32..3000, 2 => 3000u32..12_000], prop_oneof![3 => Just(0u8), 1 => 33u8..36])),
     )
         .prop_map(|((d0, d1), keepalive_ms, seed, (zero_ch, zero_mode), (l0, l1), mut ticks, tail, age)| {
-            if let Some((pow, before_ms)) = age {
+            let (mut d0, mut d1, mut l0, mut l1) = (d0, d1, l0, l1);
+            if let Some((_, _, fast_pow)) = age.filter(|a| a.2 > 0) {
+                // a FAST connection whose applications are suspended for months: a loss-free warm-up exchange over a short
+                // link brings both allowed rates to a megabyte per second or more, everything is delivered and
+                // acknowledged (three seconds of stepping without traffic, so no round-trip sample can span the pause),
+                // then nobody calls step() for 2^33..2^35 ms, then the generated history runs
+                for d in [&mut d0, &mut d1] {
+                    d.bw_limit = d.bw_limit.max(8_000_000);
+                    d.alloc_limit = d.alloc_limit.max(2_000_000);
+                    d.pkt_win_log2 = 12;
+                    d.frm_win_log2 = 12;
+                }
+                for l in [&mut l0, &mut l1] {
+                    l.latency_us = l.latency_us.min(3_000);
+                    let mut f = vec![Fate::Deliver(0); 6000];
+                    f.append(&mut l.fates);
+                    l.fates = f;
+                }
+                let idle = EpAct { step: true, sends: Vec::new(), flushes: 0 };
+                let mut pre = vec![Tick { dt_us: 1000, acts: [idle.clone(), idle.clone()] }];
+                for _ in 0..40 {
+                    let burst = EpAct { step: true, sends: (0..20).map(|_| SendSpec { ch: 1, mode: 3, size: 1000 }).collect(), flushes: 1 };
+                    pre.push(Tick { dt_us: 10_000, acts: [burst.clone(), burst] });
+                }
+                for _ in 0..150 {
+                    pre.push(Tick { dt_us: 20_000, acts: [idle.clone(), idle.clone()] });
+                }
+                pre.push(Tick { dt_us: (1u64 << fast_pow) * 1000, acts: [idle.clone(), idle] });
+                pre.append(&mut ticks);
+                ticks = pre;
+            } else if let Some((pow, before_ms, _)) = age {
                 // both endpoints are stepped once right after they were created (as Client / Server do), then they idle.
                 // (The idle period comes before any traffic: a pause of weeks with frames in flight yields round-trip
                 // samples of weeks, after which every timer of the protocol legitimately runs on that scale.)
